@@ -211,38 +211,126 @@ def _call_sites(F, path):
     return _CALLSITE_CACHE[key].get(path, [])
 
 
-def _mentions_start(body, e, depth=0, ctxF=None):
-    """Does any origin of index expression e include a StorageBlock.start read?"""
-    if e is None:
+def _plain_defs(body):
+    """lid -> defining expressions that give the local a NEW value (let initialisers, plain assignments, pattern sources).
+    Compound assignments (`x -= 1`) adjust a value and keep its base, so they are not definitions here."""
+    cache = body.__dict__.get("_plain_defs")
+    if cache is not None:
+        return cache
+    cache = {}
+    fn = body.fn
+    for i_, p_ in enumerate(fn.get("params", [])):
+        for n in walk(p_):
+            if n.get("k") == "Binding":
+                cache.setdefault(n["lid"], []).append({"k": "Param", "index": i_})
+    def bind(pat, src):
+        if pat.get("k") == "Tuple" and isinstance(src, dict) and peel(src).get("k") == "Tup" and len(peel(src)["es"]) == len(pat["pats"]):
+            for q, e_ in zip(pat["pats"], peel(src)["es"]):
+                bind(q, e_)
+            return
+        for n in walk(pat):
+            if n.get("k") == "Binding":
+                cache.setdefault(n["lid"], []).append({"k": "Destructure", "of": src})
+    for n in walk(fn["hir"]):
+        k = n.get("k")
+        if k == "Let" and "pat" in n and n.get("init") is not None:
+            pat = n["pat"]
+            if pat.get("k") == "Binding" and not pat.get("sub"):
+                cache.setdefault(pat["lid"], []).append(n["init"])
+            else:
+                bind(pat, n["init"])
+        elif k == "LetExpr":
+            bind(n["pat"], n["init"])
+        elif k == "Match":
+            for arm in n["arms"]:
+                bind(arm["pat"], n["scrut"])
+        elif k == "Assign":
+            l = hirq.local_of(n["l"])
+            if l is not None and peel(n["l"]).get("k") == "Path":
+                cache.setdefault(l, []).append(n["r"])
+        elif k == "Closure":
+            for p_ in n.get("params", []):
+                for m in walk(p_):
+                    if m.get("k") == "Binding":
+                        cache.setdefault(m["lid"], []).append({"k": "ClosureParam"})
+    body.__dict__["_plain_defs"] = cache
+    return cache
+
+
+_PASS_RECV = {"clone", "min", "max", "into", "to_owned", "saturating_sub", "saturating_add", "checked_add", "checked_sub", "unwrap", "unwrap_or", "expect", "copied", "cloned"}
+
+
+def _mentions_start(body, e, depth=0, ctxF=None, seen=None):
+    """MUST analysis: is the index expression e rebased on a StorageBlock.start on every way it can get its value?
+    A sum is based when one summand is; a local when every plain definition of it is; a parameter when every call site passes
+    a based value; a range when both bounds are; a struct field when every initialiser is."""
+    if e is None or depth > 14:
         return False
+    if seen is None:
+        seen = set()
+    if isinstance(e, dict) and e.get("k") == "Destructure":
+        return _mentions_start(body, e["of"], depth + 1, ctxF, seen)
+    if isinstance(e, dict) and e.get("k") == "Param":
+        if ctxF is None:
+            return False
+        callers = _call_sites(ctxF, body.fn["path"])
+        key = ("p", body.fn["path"], e["index"])
+        if key in seen:
+            return True  # a cycle through this parameter adds no new way to obtain a value
+        seen = seen | {key}
+        return bool(callers) and all(_mentions_start(cb, args[e["index"]] if e["index"] < len(args) else None, depth + 1, ctxF, seen) for cb, args in callers)
     e = peel(e)
-    if e.get("k") == "Struct" or e.get("k") == "Call" and (callee(e) or "").startswith("core::ops::range::Range"):
-        pass
-    # ranges: a..b / a.. / ..b are Struct exprs of core::ops::range types (or Call for RangeInclusive::new)
-    if e.get("k") == "Struct" and (e.get("def") or "").startswith("core::ops::range::"):
+    k = e.get("k")
+    if k == "Struct" and (e.get("def") or "").startswith("core::ops::range::"):
         fs = [f["e"] for f in e["fields"]]
-        return any(_mentions_start(body, x, depth + 1, ctxF) for x in fs)
-    for o in body.origins(e):
-        if _is_block_start(o):
+        return bool(fs) and all(_mentions_start(body, x, depth + 1, ctxF, seen) for x in fs)
+    if _is_block_start(e):
+        return True
+    if k == "Binary" and e.get("op") in ("+",):
+        return _mentions_start(body, e["l"], depth + 1, ctxF, seen) or _mentions_start(body, e["r"], depth + 1, ctxF, seen)
+    if k == "Binary" and e.get("op") in ("-",):
+        return _mentions_start(body, e["l"], depth + 1, ctxF, seen)
+    if k == "Path" and e.get("res") == "local":
+        key = ("l", body.fn["path"], e["lid"])
+        if key in seen:
             return True
-        if o.get("k") == "Field" and ctxF is not None and depth < 5 and not _is_block_start(o):
-            inits = _field_inits(ctxF, o.get("base_ty", ""), o.get("name"))
-            if inits and all(_mentions_start(ib, ie, depth + 1, ctxF) for ib, ie in inits):
-                return True
-        if o.get("k") == "Param" and ctxF is not None and depth < 5:
-            # interprocedural step: every call site must pass a rebased value for this parameter
-            callers = _call_sites(ctxF, body.fn["path"])
-            if callers and all(_mentions_start(cb, args[o["index"]] if o["index"] < len(args) else None, depth + 1, ctxF) for cb, args in callers):
-                return True
-        # nested: origin is an arithmetic call or a helper whose own args carry the base
-        if o.get("k") in ("Call", "MethodCall") and depth < 3:
-            d = callee(o) or ""
-            if d.endswith("extents_to_start_end"):
-                if any(_mentions_start(body, a, depth + 1, ctxF) for a in call_args(o)):
-                    return True
-        if o.get("k") == "Struct" and (o.get("def") or "").startswith("core::ops::range::"):
-            if any(_mentions_start(body, f["e"], depth + 1, ctxF) for f in o["fields"]):
-                return True
+        seen = seen | {key}
+        defs = _plain_defs(body).get(e["lid"], [])
+        return bool(defs) and all(_mentions_start(body, d, depth + 1, ctxF, seen) for d in defs)
+    if k == "Field":
+        nm = e.get("name", "")
+        if nm.isdigit():
+            # tuple field: of a tuple literal -> that element; of a call -> the call
+            inner = peel(e["e"])
+            if inner.get("k") == "Tup" and int(nm) < len(inner["es"]):
+                return _mentions_start(body, inner["es"][int(nm)], depth + 1, ctxF, seen)
+            return _mentions_start(body, e["e"], depth + 1, ctxF, seen)
+        if ctxF is not None:
+            inits = _field_inits(ctxF, e.get("base_ty", ""), nm)
+            return bool(inits) and all(_mentions_start(ib, ie, depth + 1, ctxF, seen) for ib, ie in inits)
+        return False
+    if k in ("Call", "MethodCall"):
+        d = callee(e) or ""
+        if d.endswith("extents_to_start_end"):
+            return any(_mentions_start(body, a, depth + 1, ctxF, seen) for a in call_args(e))
+        if d.startswith("core::ops::range::") or last(d) in ("new",) and "Range" in d:
+            return all(_mentions_start(body, a, depth + 1, ctxF, seen) for a in call_args(e))
+        if k == "MethodCall" and e.get("m") in _PASS_RECV:
+            return _mentions_start(body, e["recv"], depth + 1, ctxF, seen)
+        if d.endswith(("::Ok", "::Some")) and e.get("args"):
+            return _mentions_start(body, e["args"][0], depth + 1, ctxF, seen)
+        if d in ("core::iter::traits::collect::IntoIterator::into_iter", "core::iter::traits::iterator::Iterator::next", "core::iter::traits::iterator::Iterator::rev") and call_args(e):
+            return _mentions_start(body, call_args(e)[0], depth + 1, ctxF, seen)
+        return False
+    if k == "If":
+        return _mentions_start(body, e.get("then"), depth + 1, ctxF, seen) and (e.get("else") is None or _mentions_start(body, e.get("else"), depth + 1, ctxF, seen))
+    if k == "Match":
+        arms = [a["body"] for a in e["arms"]]
+        return bool(arms) and all(_mentions_start(body, a, depth + 1, ctxF, seen) for a in arms)
+    if k == "Block":
+        return _mentions_start(body, e["b"].get("expr"), depth + 1, ctxF, seen)
+    if k in ("Cast", "Unary"):
+        return _mentions_start(body, e["e"], depth + 1, ctxF, seen)
     return False
 
 
